@@ -45,6 +45,10 @@ type c12Case struct {
 	Segs     []int      `json:"segs"`
 	DefSeg   int        `json:"default_seg"`
 	DelayUS  int        `json:"emit_delay_us"`
+	// Mute: 1 + the index of a NON-FINAL event after whose input the device says something that is
+	// neither the expected response nor a prompt, and then nothing (0: none): the send must fail
+	// with a timeout and no later event's input may be transmitted
+	Mute int `json:"mute,omitempty"`
 }
 
 // texts whose END matches the named pattern (and which match no other pattern in the pool before their end)
@@ -113,6 +117,14 @@ func genC12(r *sim.Rng, i int) *c12Case {
 			}
 		}
 		c.Exact = r.Chance(1, 3)
+		if len(c.Events) >= 2 && r.Chance(1, 6) {
+			m := r.Intn(len(c.Events) - 1)
+			c.Mute = m + 1
+			c.Events[m].Step = "% working on it"
+			if c.DelayUS > 300 {
+				c.DelayUS = 300
+			}
+		}
 	case 1:
 		c.Kind = "input"
 		c.Exact = r.Chance(1, 3)
@@ -267,6 +279,22 @@ func runC12Case(id string, c *c12Case) {
 					pos += at + len(t)
 				}
 			}
+		}
+		if c.Mute > 0 {
+			cs.Kind = "interactive-mute"
+			switch {
+			case len(writes) > 2*c.Mute:
+				cs.Oracle = fmt.Sprintf("event %d's input was transmitted although event %d's expected response never arrived (%d writes reached the device, the send returned %v)", c.Mute, c.Mute-1, len(writes), e)
+				cs.Sig = "C12:typed-ahead"
+			case e == nil:
+				cs.Oracle = fmt.Sprintf("the send succeeded although the device never gave event %d's expected response", c.Mute-1)
+				cs.Sig = "C12:no-error"
+			case errClass(e) != "timeout":
+				cs.Oracle = "unexpected error " + e.Error()
+				cs.Sig = "C12:error:" + errClass(e)
+			}
+			emit(cs)
+			return
 		}
 		if cs.Oracle == "" && e != nil {
 			cs.Oracle = "unexpected error " + e.Error()
